@@ -65,9 +65,11 @@ theorem foreign_id_noop_sqlite {s : Sqlite.St D} (hI : Sqlite.Inv s) {b : String
 
 /-! ## Memory -/
 
+/-- every step preserves the data invariant -/
 theorem inv_step_memory {s : Memory.St D} (hI : Memory.Inv s) (op : Op D) :
     Memory.Inv (Memory.step s op) := Memory.inv_step hI op
 
+/-- every state reachable from the empty store satisfies the invariant -/
 theorem reachable_inv_memory (ops : List (Op D)) : Memory.Inv (Memory.run ([] : Memory.St D) ops) :=
   inv_foldl Memory.step Memory.Inv (fun _ op h => Memory.inv_step h op) ops _ Memory.inv_init
 
@@ -77,6 +79,7 @@ theorem frame_memory {s : Memory.St D} (hI : Memory.Inv s) (op : Op D) {b' : Str
     (hb : b' ≠ op.bucket) : Memory.view (Memory.step s op) b' = Memory.view s b' :=
   Memory.only_step hI op b' hb
 
+/-- a whole history that never addresses `b'` leaves `b'` exactly as it was -/
 theorem frame_run_memory {s : Memory.St D} (hI : Memory.Inv s) (ops : List (Op D)) {b' : String}
     (hb : ∀ op ∈ ops, op.bucket ≠ b') : Memory.view (Memory.run s ops) b' = Memory.view s b' :=
   frame_foldl Memory.view Memory.step Memory.Inv (fun _ op h => Memory.inv_step h op)
@@ -93,6 +96,7 @@ theorem rejected_unchanged_memory (s : Memory.St D) (b : String) (x : Err) :
     (∀ i, Memory.delete s b i = .error x → Memory.step s (.delete b i) = s) := by
   refine ⟨?_, ?_, ?_, ?_, ?_, ?_, ?_⟩ <;> intros <;> simp only [Memory.step, *]
 
+/-- replace / delete with an id that is not live in the addressed bucket change no bucket at all -/
 theorem foreign_id_noop_memory {s : Memory.St D} (hI : Memory.Inv s) {b : String} {i : Int}
     (hi : i ∉ Spec.ids (Memory.view s) b) (e : Ev D) :
     Memory.view (Memory.step s (.replace b i e)) = Memory.view s ∧
@@ -109,9 +113,11 @@ theorem foreign_id_noop_memory {s : Memory.St D} (hI : Memory.Inv s) {b : String
 
 /-! ## Peewee -/
 
+/-- every step preserves the data invariant (cache coherence and foreign keys included) -/
 theorem inv_step_peewee {s : Peewee.St D} (hI : Peewee.Inv s) (op : Op D) :
     Peewee.Inv (Peewee.step s op) := Peewee.inv_step hI op
 
+/-- every state reachable from the empty store satisfies the invariant -/
 theorem reachable_inv_peewee (ops : List (Op D)) : Peewee.Inv (Peewee.run ({} : Peewee.St D) ops) :=
   inv_foldl Peewee.step Peewee.Inv (fun _ op h => Peewee.inv_step h op) ops _ Peewee.inv_init
 
@@ -121,6 +127,7 @@ theorem frame_peewee {s : Peewee.St D} (hI : Peewee.Inv s) (op : Op D) {b' : Str
     (hb : b' ≠ op.bucket) : Peewee.view (Peewee.step s op) b' = Peewee.view s b' :=
   Peewee.only_step hI op b' hb
 
+/-- a whole history that never addresses `b'` leaves `b'` exactly as it was -/
 theorem frame_run_peewee {s : Peewee.St D} (hI : Peewee.Inv s) (ops : List (Op D)) {b' : String}
     (hb : ∀ op ∈ ops, op.bucket ≠ b') : Peewee.view (Peewee.run s ops) b' = Peewee.view s b' :=
   frame_foldl Peewee.view Peewee.step Peewee.Inv (fun _ op h => Peewee.inv_step h op)
